@@ -19,7 +19,12 @@ def faultEv (kind : Nat) : Ev :=
   | _ => .cancelParent
 
 /-- does the failure recover by re-dialling (link change, non-permission system-call error)? -/
-def recoverable (kind : Nat) : Bool := kind == 1 || kind == 4 || kind == 5
+def recoverable (kind : Nat) : Bool := kind == 1 || kind == 4 || kind == 5 || kind == 8
+
+/-- kinds 8 and 9: the initial multicast RA of the first connection fails (system-call error /
+    other error) — before the task's goroutines exist; the classification of the error is the same
+    as for a later transmission. -/
+def atInit (kind : Nat) : Bool := kind == 8 || kind == 9
 
 def expectedOutcome (kind : Nat) : String :=
   if kind == 6 then "nil" else if recoverable kind then "redial" else "error"
@@ -33,7 +38,7 @@ def grp (c impl : List String) : Option Verdict := do
   -- the model: after the fault the group winds down completely (τ-closure reaches `ret`)
   let s0 := init mon uo
   let after := (step Gen.Listener.cancelBeforeWait s0 (faultEv kind)).map (saturate Gen.Listener.cancelBeforeWait 32)
-  let modelReturns := match after with
+  let modelReturns := atInit kind || match after with
     | some x => x.ret
     | none => false
   let modelOutcome := if modelReturns then expectedOutcome kind else "running"
